@@ -413,7 +413,9 @@ Definition enc_dct (d : dct) (v : value) (s : estate) : res estate :=
     do n <- match v, bt with
             | VBytes b, BBytes => Ok (blen b)
             | VStr str, BBytes => Ok (blen str)
-            | VStr str, (BAscii | BUtf8) => match utf8_len str with Some n => Ok n | None => Err (EForeign 4) end
+            (* since the fix commit: an A_ASCIISTRING counts one byte per character, as it is written *)
+            | VStr str, BAscii => Ok (blen str)
+            | VStr str, BUtf8 => match utf8_len str with Some n => Ok n | None => Err ERej end   (* replaced, then rejected *)
             | VStr str, BUni => match utf16_enc false str with Some b => Ok (blen b) | None => Err (EForeign 4) end
             | VBytes _, (BAscii | BUtf8 | BUni) => Err ERej
             | _, _ => Err ERej
